@@ -10,7 +10,7 @@ import time
 from . import coq
 
 VERIF = coq.VERIF
-REPO = os.environ.get('VERIF_REPO', '/repo')
+REPO = (os.environ.get('VERIF_REPO') or '/repo')
 GUARD = 'PYSYNCOBJ_VERIF'
 
 # theorem files shared by several properties: the refinement of the L1 model to abstract Raft (log matching, leader
